@@ -31,6 +31,7 @@ func main() {
 		fmt.Fprintf(os.Stderr, "crssim: unknown tier %q\n", *tier)
 		os.Exit(2)
 	}
+	loadSites(*build)
 	switch sub {
 	case "check":
 		os.Exit(checkMain(*prop, *build, *verif, *tier, *seed))
